@@ -3,6 +3,7 @@ package main
 import (
 	"fmt"
 	"math/big"
+	"sort"
 	"sync"
 	"sync/atomic"
 
@@ -284,7 +285,9 @@ func tickSanity(run *sim.Run) {
 	})
 	run.Eval(int(tick.Max-tick.Min) + 1)
 	run.Extra("table_vs_exact_max_relative_error", maxRel)
-	run.Extra("ticks_where_table_boundary_differs_from_exact_boundary", diffTicks)
+	sort.Slice(diffTicks, func(i, j int) bool { return diffTicks[i] < diffTicks[j] })
+	run.Extra("ticks_where_table_boundary_differs_from_exact_boundary_count", len(diffTicks))
+	run.Extra("ticks_where_table_boundary_differs_from_exact_boundary_first_40", diffTicks[:min(40, len(diffTicks))])
 	run.Count("tick_table_vs_exact_compared", int(tick.Max-tick.Min)+1)
 	run.Count("tick_boundary_differs_from_exact", len(diffTicks))
 	if maxRel > 1e-9 {
